@@ -13,10 +13,14 @@ TECHNIQUE = "Lean 4 theorems on the page-hierarchy model (page set = expected fi
 LEVEL_TEXT = ("The page hierarchy of website.py is modelled in Lean over an abstract source tree (home, servesN and categories hierarchies, shared unscaled recipe "
               "pages, serving menus, error when a recipe states more servings than M); the model's page set, titles and generated links are compared with "
               "real generated sites; the oracle compares the set of files written with the set prescribed by the property and every recipe page's scaled "
-              "values with an independent render at n / servings.")
+              "values with an independent render at n / servings. C15b: the factor handed to render for the page of count n is exactly n / stated servings "
+              "(pageScale_value, _native, _count_shown, _injective, _compose), observed on every page and on the stand-alone page. C15c: which entries of a "
+              "directory are sub directories, the readme and recipes (enumerate_spec: all directories, the one file named readme.md / index.md in any letter "
+              "case, every other file with suffix .md in any letter case, in listing order; enumerate_error_iff: refused exactly with two or more readme "
+              "files), compared with enumerate_recipe_directory on real directories with files, directories and symbolic links.")
 LEVEL_NOTE = ("Partial: files actually written (pathlib, open, copyfile) and Jinja templates are outside the model. Known finding: two recipes whose file names "
               "differ only in the extension's letter case map to one page. Trusted: Lean kernel; model as far as correspondence exercises it.")
-LEAN_MODULES = ["RecipeGrid.Props.C15", "RecipeGrid.Props.C15b"]
+LEAN_MODULES = ["RecipeGrid.Props.C15", "RecipeGrid.Props.C15b", "RecipeGrid.Props.C15c"]
 SOURCES = ["recipe_grid/static_site/website.py", "recipe_grid/static_site/recipe_directory.py", "recipe_grid/markdown.py"]
 RULE = c14.RULE + "; stated serving counts 1..5 including counts above M (error expected)"
 
@@ -24,6 +28,62 @@ RULE = c14.RULE + "; stated serving counts 1..5 including counts above M (error 
 def correspondence(run):
     c14.correspondence(run)
     scale_correspondence(run)
+    enumerate_correspondence(run)
+
+
+ENTRY_NAMES = ["README.md", "readme.md", "ReadMe.MD", "index.md", "INDEX.md", "Index.Md", "readme.markdown", "readme.md.bak", "README", "a.md", "b.MD", "c.Md", "d.mD",
+               ".md", "..md", "e.md.", "f.markdown", "g.txt", "h", "i.j.md", "k.md.txt", "l .md", "md", "\u0130ndex.md", "inde\u0131x.md", "n.\uff4dd", "o.m\u0064",
+               "read me.md", "p.MD ", " q.md"]
+
+
+def enumerate_correspondence(run):
+    """enumerate_recipe_directory on real directories (files, directories and symbolic links to either, named like readmes, recipes and neither)
+    against the model's enumerateDir fed with the same listing (theorems enumerate_spec, enumerate_error_iff in Props/C15c.lean)"""
+    import os
+    from recipe_grid.static_site.recipe_directory import enumerate_recipe_directory
+    from recipe_grid.static_site.exceptions import MultipleReadmeError
+    rng = run.rng
+    scratch = gen_site.scratch_root()
+    try:
+        reqs, reals = [], []
+        for i in range(run.budget(60, 1500)):
+            d = scratch / ("d%d" % i)
+            d.mkdir()
+            other = scratch / ("other%d" % i)
+            other.mkdir()
+            (other / "target.md").write_text("# T for 2\n\n    1 x\n")
+            names = rng.sample(ENTRY_NAMES, rng.randint(0, 8))
+            if rng.random() < 0.7:
+                names = [n for n in names if n.lower() not in ("readme.md", "index.md")] + rng.sample(["README.md", "index.md", "Readme.MD"], rng.choice([0, 1, 1]))
+            for n in names:
+                kind = rng.choice(["file", "file", "file", "dir", "link-file", "link-dir"])
+                p = d / n
+                if kind == "file":
+                    p.write_text("# %s for 2\n\n    1 x\n" % (n.strip(". ") or "x"))
+                elif kind == "dir":
+                    p.mkdir()
+                elif kind == "link-file":
+                    os.symlink(other / "target.md", p)
+                else:
+                    os.symlink(other, p)
+            listing = [(q.name, q.is_dir()) for q in d.iterdir()]
+            try:
+                r = enumerate_recipe_directory(d)
+                real = ("ok", r.description_source.name if r.description_source else None, [q.name for q in r.subdirectories], [q.name for q in r.recipes])
+            except MultipleReadmeError as e:
+                real = ("multiple-readme",)
+            except Exception as e:  # noqa
+                real = ("raises", type(e).__name__)
+            reqs.append(sexp.tag("enumerate", sexp.lst(lambda e: sexp.tag("e", sexp.s(e[0]), sexp.b(e[1])), listing)))
+            reals.append((listing, real))
+        for (listing, real), m in zip(reals, run.ask(reqs)):
+            model = ("ok", m[1], list(m[2]), list(m[3])) if m[0] == "ok" else ("multiple-readme",)
+            run.case(("enumerate", tuple(listing)), len(listing) > 1, kind="enumerate:" + real[0])
+            run.groups["enumerate_recipe_directory vs enumerateDir"] += 1
+            if real != model:
+                run.disagree("enumerate", listing, repr(real)[:400], repr(model)[:400])
+    finally:
+        shutil.rmtree(scratch, ignore_errors=True)
 
 
 def scale_correspondence(run):
